@@ -234,6 +234,8 @@ def generate(unit: Unit, root, rules_mod):
             s, e = src.find_adt(it.kw, it.name)
             orig = src.text[s:e]
             where = f"{it.file}::{it.kw} {it.name}"
+            if it.kw == "struct" and "pubfields" not in rules:
+                rules = list(rules) + ["pubfields"]
             t = rules_mod.apply_rules(orig, rules, ctx, meta["rule_counts"], where)
             t = apply_site_rewrites(t, it.rewrites, meta["rewrites"], where)
             start = cur_line()
@@ -246,9 +248,9 @@ def generate(unit: Unit, root, rules_mod):
         orig = src.text[s:e + 1]
         where = f"{it.file}::{(it.container + '::') if it.container else ''}{it.name}"
         t = rules_mod.apply_rules(orig, rules, ctx, meta["rule_counts"], where)
-        # loop ordinals and ghost anchors refer to text after generic rules, before site rewrites
-        t, n_loops = annotate_fn(t, it, meta["rewrites"], where)
+        # loop ordinals and ghost anchors refer to the text after generic rules and site rewrites
         t = apply_site_rewrites(t, it.rewrites, meta["rewrites"], where)
+        t, n_loops = annotate_fn(t, it, meta["rewrites"], where)
         wrap = it.as_method_of if it.as_method_of else (it.container if (it.container and " for " not in it.container and not it.drop_self_impl) else None)
         start = cur_line()
         hdr = f"// ---- {where} (lines {src.line_of(s)}-{src.line_of(e)})\n"
